@@ -663,6 +663,46 @@ def run(ctx, col: Collector):
         col.floor('C08-precondition', 'call sites of doublequote_string', n, 2)
     guarded(col, 'C08-precondition', 'preconditions', preconditions)
 
+    def kind_lookups():
+        # a table indexed by the kind of a reference (`_FK_TABLE[ref.type]`): the kind ranges over the four relation constants, so every kind under which the
+        # lookup is reached needs a key - decided by partial evaluation of the function once per kind (tests on the kind folded, `continue`/`return` followed)
+        from ..peval import run as _prun
+        from .c18 import const_names
+        kinds = sorted(const_names(ctx))
+        n = 0
+        for fid, fi in sorted(funcs.items()):
+            if not isinstance(fi.node, ast.FunctionDef):
+                continue
+            for sub in walk_no_nested(fi.node):
+                if not (isinstance(sub, ast.Subscript) and isinstance(sub.ctx, ast.Load) and isinstance(sub.value, ast.Name) and isinstance(sub.slice, ast.Attribute)
+                        and sub.slice.attr == 'type'):
+                    continue
+                sym = idx.resolve(fi.module, sub.value.id)
+                d = sym.node if sym is not None and sym.kind == 'assign' else None
+                if not (isinstance(d, ast.Dict) and d.keys and all(isinstance(k, ast.Name) for k in d.keys)):
+                    continue
+                keys = {k.id for k in d.keys}
+                if not keys <= set(kinds):
+                    continue
+                n += 1
+                subject = norm(sub.slice)
+                missing = []
+                for K in kinds:
+                    if K in keys:
+                        continue
+                    tr = _prun(fi.node, subject, K)
+                    if any(s_ is sub for s_, _ in tr.subscripts):
+                        missing.append(K)
+                cons = f'kind-lookup:{fi.qualname}:{sub.value.id}'
+                if missing:
+                    col.bad('C08-partial', cons, f'{fi.qualname} evaluates `{norm(sub)}` for references of kind {missing}, but `{sub.value.id}` has keys {sorted(keys)} only: '
+                            f'KeyError for a database that parsed (e.g. an inline `-` reference)', node=sub, file=fi.file)
+                else:
+                    col.ok('C08-partial', cons, f'`{norm(sub)}` is reached only for kinds that are keys of `{sub.value.id}`', node=sub, file=fi.file)
+        if n == 0:
+            col.ok('C08-partial', 'kind-lookup:none', 'no table is indexed by the kind of a reference', file='pydbml/renderer/sql/default/utils.py')
+    guarded(col, 'C08-partial', 'kind-lookups', kind_lookups)
+
     def required_check():
         # `.sql` first calls check_attributes_for_sql.  For a parsed database every required attribute is set, but possibly to a falsy value: the quoted
         # alternative of the name token accepts `""`.  The check may therefore test for None only; a truth-value test makes an empty name "missing" and `.sql`
